@@ -488,6 +488,54 @@ def havoc_for_loop(ex, body, st: St, extra_modifies=()):
             havoc_all = True
     for v in list(extra_modifies):
         refs.append(v)
+    # calls to contracted callees that declare `modifies`: havoc what they may write (precisely when the target
+    # expressions are loop-invariant, otherwise the whole heap)
+    body_assigned = assigned_names(body)
+    for n in body:
+        for x in ast.walk(n):
+            if not isinstance(x, ast.Call):
+                continue
+            cname = x.func.id if isinstance(x.func, ast.Name) else x.func.attr if isinstance(x.func, ast.Attribute) else None
+            if cname is None:
+                continue
+            cands = [(k, c) for k, c in ex.project.contracts.items() if c.get("modifies") and (k.endswith(":" + cname) or k.endswith("." + cname))]
+            if not cands:
+                continue
+            for key, c in cands:
+                try:
+                    fa = ex.project.function_ast(key)
+                    pnames = [a.arg for a in fa.args.posonlyargs + fa.args.args]
+                    argexprs = ([x.func.value] if (isinstance(x.func, ast.Attribute) and pnames and pnames[0] == "self") else []) + list(x.args)
+                    env2 = {}
+                    needed = {y.id for m in c["modifies"] for y in ast.walk(ast.parse(m, mode="eval")) if isinstance(y, ast.Name)}
+                    for pn, ae in zip(pnames, argexprs):
+                        if pn not in needed:
+                            continue
+                        free = {y.id for y in ast.walk(ae) if isinstance(y, ast.Name)}
+                        if free & body_assigned:
+                            raise Unsupported("loop-variant argument")
+                        ex.pure_depth += 1
+                        try:
+                            env2[pn] = ex.ev1(ae, st.fork())
+                        finally:
+                            ex.pure_depth -= 1
+                    for kw in x.keywords:
+                        if kw.arg and kw.arg in needed:
+                            ex.pure_depth += 1
+                            try:
+                                env2[kw.arg] = ex.ev1(kw.value, st.fork())
+                            finally:
+                                ex.pure_depth -= 1
+                    for m in c["modifies"]:
+                        sub = st.fork()
+                        sub.env = dict(env2)
+                        ex.pure_depth += 1
+                        try:
+                            refs.append(ex.ev1(ast.parse(m, mode="eval").body, sub))
+                        finally:
+                            ex.pure_depth -= 1
+                except (Unsupported, KeyError):
+                    havoc_all = True
     if havoc_all:
         s.heap = s.heap.havoc_all(fields=[])
         s.assume(*smt.heap_wellformed(s.heap))
